@@ -230,8 +230,24 @@ class ModuleInfo:
                         self.assigns[t.id] = st.value
             elif isinstance(st, ast.AnnAssign) and st.value is not None and isinstance(st.target, ast.Name):
                 self.assigns[st.target.id] = st.value
-            elif isinstance(st, (ast.If, ast.Try)):
-                # module-level try/except import fallbacks: scan the primary body
+            elif isinstance(st, ast.Try):
+                # module-level `try: import optional ... except ImportError: fallback`: take the branch that
+                # CPython takes in this environment (is the optional top-level module importable?)
+                first = st.body[0] if st.body else None
+                missing = False
+                if isinstance(first, (ast.Import, ast.ImportFrom)) and not getattr(first, "level", 0):
+                    top = (first.module if isinstance(first, ast.ImportFrom) else first.names[0].name).split(".")[0]
+                    import importlib.util
+                    try:
+                        missing = importlib.util.find_spec(top) is None
+                    except (ImportError, ValueError):
+                        missing = True
+                if missing:
+                    for h in st.handlers:
+                        self._scan(h.body)
+                else:
+                    self._scan(st.body)
+            elif isinstance(st, ast.If):
                 self._scan(st.body)
 
     def resolve_name(self, name, _depth=0):
